@@ -31,8 +31,8 @@ type Options struct {
 	MemberCountQuorum int
 	ReadRepair        bool
 	Partitions        uint64
-	TableSize         int           // bytes; 0 = default (1 MiB)
-	Manual            bool          // TRUE: push/balancer/janitor/compaction timers at one hour, the driver calls Sync()
+	TableSize         int  // bytes; 0 = default (1 MiB)
+	Manual            bool // TRUE: push/balancer/janitor/compaction timers at one hour, the driver calls Sync()
 	DMaps             func(*config.DMaps)
 	Tweak             func(*config.Config)
 	LogTo             io.Writer
@@ -144,9 +144,11 @@ func (c *Cluster) newConfig() *config.Config {
 	mc.BindPort = freePort()
 	mc.AdvertisePort = mc.BindPort
 	// sub-second failure detection so that abrupt stops are noticed quickly
-	mc.ProbeInterval = 100 * time.Millisecond
-	mc.ProbeTimeout = 60 * time.Millisecond
-	mc.SuspicionMult = 2
+	// (not more aggressive than this: under CPU load a live member must not be declared dead)
+	mc.ProbeInterval = 250 * time.Millisecond
+	mc.ProbeTimeout = 200 * time.Millisecond
+	mc.SuspicionMult = 3
+	mc.IndirectChecks = 3
 	mc.GossipInterval = 20 * time.Millisecond
 	mc.PushPullInterval = 2 * time.Second
 	mc.TCPTimeout = 500 * time.Millisecond
@@ -398,9 +400,13 @@ func (c *Cluster) stableOnce(requireBalanced bool) (string, bool) {
 			if len(t.Owners[p]) == 0 {
 				return fmt.Sprintf("%s has no owner for partition %d", m.Name, p), false
 			}
-			for _, o := range append(append([]string{}, t.Owners[p]...), t.Backups[p]...) {
-				if !names[o] {
-					return fmt.Sprintf("%s lists departed owner %s for partition %d", m.Name, o, p), false
+			if requireBalanced {
+				// (whether a departed member is still listed in a table that no longer changes is for the
+				// specification to judge, not a precondition)
+				for _, o := range append(append([]string{}, t.Owners[p]...), t.Backups[p]...) {
+					if !names[o] {
+						return fmt.Sprintf("%s lists departed owner %s for partition %d", m.Name, o, p), false
+					}
 				}
 			}
 			if requireBalanced && len(t.Owners[p]) != 1 {
